@@ -132,14 +132,15 @@ def run(chk, scratch):
     if thorough:
         for i in range(40):
             rounds.append({"n": (2, 3, 4, 8, 12, 16)[i % 6], "same_gtf": i % 3 == 0, "fresh_home": i % 2 == 0,
-                           "delay": (0.0, 0.02, 0.05, 0.2)[i % 4]})
+                           "delay": (0.0, 0.02, 0.05, 0.2)[i % 4], "shared_db": i % 5 == 4})
     else:
         rounds = [{"n": 8, "same_gtf": False, "fresh_home": True, "delay": 0.05},
                   {"n": 8, "same_gtf": True, "fresh_home": True, "delay": 0.02},
                   {"n": 6, "same_gtf": False, "fresh_home": False, "delay": 0.2},
                   {"n": 12, "same_gtf": False, "fresh_home": True, "delay": 0.0},
                   {"n": 4, "same_gtf": False, "fresh_home": False, "delay": 0.05},
-                  {"n": 16, "same_gtf": False, "fresh_home": True, "delay": 0.02}]
+                  {"n": 16, "same_gtf": False, "fresh_home": True, "delay": 0.02},
+                  {"n": 8, "same_gtf": False, "fresh_home": True, "delay": 0.02, "shared_db": True}]
     # inputs: a pool of 16 different small worlds + solo outputs
     pool = os.path.join(scratch, "pool")
     os.makedirs(pool)
@@ -161,6 +162,9 @@ def run(chk, scratch):
         rdir = os.path.join(scratch, "round%d" % ri)
         home = os.path.join(rdir, "home")
         os.makedirs(home)
+        if rd.get("shared_db"):
+            # every run of the round names the same folder for converted annotation databases (all annotations are called a.gtf)
+            os.makedirs(os.path.join(rdir, "shared_db"))
         if not rd["fresh_home"]:
             # pre-populate the cache with a finished run of input 15
             r0 = pipeline.run(os.path.join(pool, "in15"), os.path.join(rdir, "pre"), threads=1, home=home)
@@ -172,7 +176,8 @@ def run(chk, scratch):
             d = os.path.join(pool, "in%d" % k)
             out = os.path.join(rdir, "out%d" % j)
             # a tiny shim delays the start until the common release time
-            r = runner.run_isoquant(pipeline.std_args(d, out, threads=1), home, mon=["cache"],
+            extra = ["--genedb_output", os.path.join(rdir, "shared_db")] if rd.get("shared_db") else []
+            r = runner.run_isoquant(pipeline.std_args(d, out, threads=1, extra=extra), home, mon=["cache"],
                                     cfg={"cache_seed": chk.seed * 100 + ri, "cache_max_delay": rd["delay"]}, events=ev,
                                     env_extra={"VERIF_RUN_ID": str(j), "VERIF_START_AT": str(start_at)}, cwd=rdir)
             return j, k, out, r
